@@ -804,6 +804,7 @@ class SessionObj:
         # pending writes are rolled back, the read snapshot is released
         if self.dirty:
             EM.effect(I, 'sql_rollback', session=self)
+        EM.effect(I, 'sql_close', session=self)
         self.view = None
         self.dirty = False
         self.closed = True
